@@ -10,6 +10,7 @@ per-case ``tempfile.mkdtemp()`` the caller removes).
 """
 import bz2
 import gzip
+import hashlib
 import io
 import lzma
 import os
@@ -72,6 +73,55 @@ def ar_archive(members):
             out.append(b"\n")
             pos += 1
     return b"".join(out), offsets
+
+
+PIECE_KINDS = ("lit", "repeat", "noise", "line")
+
+
+def _latin1(s):
+    return isinstance(s, str) and all(ord(c) < 256 for c in s)
+
+
+def piece_size(piece):
+    """Size in bytes of one piece of a compact content description, or None when it is malformed."""
+    if not isinstance(piece, list) or not piece or piece[0] not in PIECE_KINDS:
+        return None
+    kind = piece[0]
+    if kind == "lit":
+        return len(piece[1]) if len(piece) == 2 and _latin1(piece[1]) else None
+    if len(piece) != 3 or isinstance(piece[2], bool) or not isinstance(piece[2], int) or piece[2] < 0:
+        return None
+    if kind == "repeat":
+        return len(piece[1]) * piece[2] if _latin1(piece[1]) else None
+    if isinstance(piece[1], bool) or not isinstance(piece[1], int) or piece[1] < 0:
+        return None
+    return piece[2]
+
+
+def expand_pieces(pieces):
+    """Member contents from a compact description, so that megabyte-sized cases stay small JSON.
+
+    pieces: list of  ["lit", latin-1 str]            the bytes themselves
+                     ["repeat", latin-1 str, count]  the pattern ``count`` times
+                     ["noise", seed, size]           ``size`` arbitrary bytes: SHAKE-256 of the seed
+                                                     (all 256 values, a newline every ~256 bytes)
+                     ["line", seed, size]            the same noise with every ``\\n`` turned into
+                                                     ``\\r``: ``size`` bytes without a line end
+    Deterministic (no random module, no clock).
+    """
+    out = []
+    for p in pieces:
+        if piece_size(p) is None:
+            raise ValueError("malformed piece %r" % (p,))
+        kind = p[0]
+        if kind == "lit":
+            out.append(p[1].encode("latin-1"))
+        elif kind == "repeat":
+            out.append(p[1].encode("latin-1") * p[2])
+        else:
+            raw = hashlib.shake_256(b"vcheck-c06-noise:%d" % p[1]).digest(p[2])
+            out.append(raw.replace(b"\n", b"\r") if kind == "line" else raw)
+    return b"".join(out)
 
 
 def ar_binary_archive(members, workdir):
